@@ -533,6 +533,9 @@ func (w *World) intrinsic(t *Thread, f *Frame, fnv FuncV, args []Val, c *ssa.Cal
 		w.names["uuid"]++
 		return fmt.Sprintf("uuid-%d", w.names["uuid"]), false
 	case "math/rand/v2.Float64", "math/rand.Float64":
+		if w.randFixed {
+			return 0.5, false
+		}
 		r := w.fresh("rnd", "Real")
 		w.s.send(fmt.Sprintf("(assert (and (>= %s 0.0) (< %s 1.0)))", r, r))
 		return symR(r), false
@@ -620,8 +623,14 @@ func (w *World) intrinsic(t *Thread, f *Frame, fnv FuncV, args []Val, c *ssa.Cal
 			return symI("(str.len " + s.t + ")"), false
 		}
 	case "builtin:cap":
-		if s, ok := args[0].(SliceV); ok {
+		switch s := args[0].(type) {
+		case SliceV:
 			return int64(s.hi - s.lo), false
+		case *Chan:
+			if s == nil {
+				return int64(0), false
+			}
+			return int64(s.cap), false
 		}
 	case "builtin:recover":
 		if t.panicking {
